@@ -194,7 +194,7 @@ func genC14(c *Ctx) {
 			pats := fmt.Sprintf("%d:%d:%d:%s", cycle, rsq, code, filt)
 			type patT struct {
 				cycle, rsq, code int
-				filt            string
+				filt             string
 			}
 			pl := []patT{{cycle, rsq, code, filt}}
 			if r.Intn(3) == 0 {
@@ -289,7 +289,7 @@ func genC14(c *Ctx) {
 				if st >= 3 && !c.Thorough() {
 					continue
 				}
-				nowMS := (100 + sec) * 1000 + 300
+				nowMS := (100+sec)*1000 + 300
 				k := (nowMS - 2300) / 2000
 				u := fmt.Sprintf("/livesim2/traffic_%s/testpic_2s/bu%d/V300/%d.m4s?nowMS=%d", tr, j, k, nowMS)
 				rr := doLive("GET", u)
